@@ -46,7 +46,7 @@ func (f *fakeIn) Close() error                  { return nil }
 func (f *fakeIn) ReceiveChannel() <-chan []byte { return f.ch }
 
 // relay <seed> <emitters> <perEmitter> <inputMessages>
-func relay(seed int64, ne, per, nin int) string {
+func relay(seed int64, ne, per, nin int, quiet time.Duration) string {
 	rng := rand.New(rand.NewSource(seed))
 	out := &fakeOut{ch: make(chan []byte, rng.Intn(3)*4)}
 	in := &fakeIn{ch: make(chan []byte, rng.Intn(3)*4)}
@@ -95,11 +95,17 @@ func relay(seed int64, ne, per, nin int) string {
 				return
 			}
 		}
-		// anything extra (a duplicate) would arrive now
-		select {
-		case b := <-out.ch:
-			portGot = append(portGot, hex.EncodeToString(b))
-		case <-time.After(30 * time.Millisecond):
+		// anything extra (a duplicate, an echo of something nobody emitted) would arrive now; with a long quiet period the
+		// relay is watched across its own timers as well
+		deadline := time.After(quiet)
+		for {
+			select {
+			case b := <-out.ch:
+				portGot = append(portGot, hex.EncodeToString(b))
+				continue
+			case <-deadline:
+			}
+			break
 		}
 	}()
 	var inSent, inGot []string
@@ -114,10 +120,15 @@ func relay(seed int64, ne, per, nin int) string {
 				return
 			}
 		}
-		select {
-		case b := <-evIn:
-			inGot = append(inGot, hex.EncodeToString(b))
-		case <-time.After(30 * time.Millisecond):
+		deadline := time.After(quiet)
+		for {
+			select {
+			case b := <-evIn:
+				inGot = append(inGot, hex.EncodeToString(b))
+				continue
+			case <-deadline:
+			}
+			break
 		}
 	}()
 	for i := 0; i < nin; i++ {
@@ -266,7 +277,12 @@ func TestVerifRunner(t *testing.T) {
 			ne, _ := strconv.Atoi(toks[2])
 			per, _ := strconv.Atoi(toks[3])
 			nin, _ := strconv.Atoi(toks[4])
-			fmt.Fprintln(w, relay(seed, ne, per, nin))
+			quiet := 30 * time.Millisecond
+			if len(toks) > 5 {
+				ms, _ := strconv.Atoi(toks[5])
+				quiet = time.Duration(ms) * time.Millisecond
+			}
+			fmt.Fprintln(w, relay(seed, ne, per, nin, quiet))
 			w.Flush()
 		}
 		if toks[0] == "pipe" {
